@@ -4,7 +4,7 @@ import symtable
 
 from .. import cfg as cfgmod
 from ..core import Undecided, node_text
-from ..idioms import (concat_operands, copy_source, increment_of, is_name, is_none_test, is_true, negated)
+from ..idioms import (concat_operands, copy_source, increment_of, is_false, is_name, is_none_test, is_true, negated)
 from ..model import call_name, dotted, is_none, names_in, walk_no_nested
 from ..skeleton import USER_HOLES, config_name, hole_of, holes_in
 
@@ -943,6 +943,7 @@ def rule_sk_paren(cx, rep, port):
 
 
 def rule_sk_unnest_pos(cx, rep, port):
+    from ..snippet import inline_single_defs
     """select_unnested: the position that receives each list element is found in the record of the *current* call"""
     p = cx.port(port)
     mod = cx.engine_mod(port)
@@ -963,6 +964,9 @@ def rule_sk_unnest_pos(cx, rep, port):
                 for b in (x.slice.lower, x.slice.upper):
                     if b is not None:
                         cands |= {n_.id for n_ in ast.walk(b) if isinstance(n_, ast.Name)}
+            if isinstance(x, ast.Call) and isinstance(x.func, ast.Attribute) and x.func.attr in ('slice', 'substring', 'splice') and is_name(x.func.value, folded):
+                for b in x.args[:2]:
+                    cands |= {n_.id for n_ in ast.walk(b) if isinstance(n_, ast.Name)}
         cands -= {folded}
         if len(cands) != 1:
             raise Undecided('select_unnested: substitution position not recognised', fd)
@@ -996,6 +1000,15 @@ def rule_sk_unnest_pos(cx, rep, port):
         rep.holds('unnest position', st, 'the position of the UNNEST marker is located in the record of the current call')
     else:
         rep.undecided('unnest position', st, 'definition of the substitution index not recognised')
+    if port == 'js':
+        # Array.prototype.concat spreads an argument that is itself an array: an UNNEST element handed to concat() bare (not
+        # wrapped in an array literal) puts its *items* into the record when the element is a list
+        for c in ast.walk(fd):
+            if isinstance(c, ast.Call) and isinstance(c.func, ast.Attribute) and c.func.attr == 'concat':
+                bare = [a for a in c.args if not isinstance(a, (ast.List, ast.Tuple)) and 'unnest_list' in node_text(inline_single_defs(a, fd, depth=2, any_value=True), 200)]
+                if bare:
+                    rep.violated('unnest element placement', c, '`{}` hands the UNNEST element to concat() unwrapped: concat spreads array-valued elements, so a list element contributes several fields (or none) instead of exactly one'.format(node_text(c, 80)))
+                    return
     # a fresh copy per element, elements in order, verdict propagated
     loops = [lp for lp in walk_no_nested(fd) if isinstance(lp, ast.For) and 'unnest_list' in node_text(lp.iter, 200)]
     if len(loops) != 1:
@@ -1048,3 +1061,60 @@ def _unnest_verdict(cx, rep, port, fd):
             rep.violated('unnest verdict', c, 'the verdict of select_simple is dropped inside select_unnested')
         else:
             rep.undecided('unnest verdict', c, 'use of the select_simple verdict not recognised')
+
+
+def rule_sk_relay(cx, rep, port):
+    """select_simple hands the writer's verdict on: it returns false exactly on the paths on which writer.write() refused (so the
+    main loop stops and nothing is written after a refusal), true on the others, and writes once per call.  Path summaries."""
+    from .. import pathsem
+    p = cx.port(port)
+    mod = cx.engine_mod(port)
+    fd = p.func(mod, 'select_simple')
+    ps = pathsem.paths(fd)
+    if ps is None:
+        rep.undecided('select_simple verdict', fd, 'select_simple is not summarisable as paths')
+        return
+
+    def strip(e):
+        while isinstance(e, ast.Await):
+            e = e.value
+        return e
+
+    def is_write(e):
+        e = strip(e)
+        return isinstance(e, ast.Call) and isinstance(e.func, ast.Attribute) and e.func.attr == 'write' and (dotted(e.func.value) or '').endswith('writer')
+    n_ref = n_ok = 0
+    for q in ps:
+        if q.kind == 'raise':
+            continue
+        verdicts = []
+        for atom, pol in pathsem.atoms(q.conds):
+            if is_write(atom):
+                verdicts.append(pol)
+        val = strip(q.value) if q.kind == 'return' and q.value is not None else None
+        direct = val is not None and is_write(val)
+        writes = len(verdicts) + (1 if direct else 0) + sum(1 for c in q.calls if is_write(c))
+        if writes != 1:
+            rep.violated('select_simple writes', q.node, 'a path of select_simple hands the record to the writer {} times (must be exactly once)'.format(writes))
+            return
+        if direct:
+            n_ref += 1
+            n_ok += 1
+            continue
+        if not verdicts:
+            rep.violated('select_simple verdict', q.node, 'select_simple drops the verdict of writer.write(): a writer that refuses (TOP reached, pipe closed) cannot stop the query')
+            return
+        if verdicts[0] is False:
+            n_ref += 1
+            if not (val is not None and is_false(val)):
+                rep.violated('select_simple verdict', q.node, 'when writer.write() refuses, select_simple returns `{}` instead of false: the main loop goes on reading input and offering records to a writer that has said stop'.format(node_text(val, 30) if val is not None else 'nothing'))
+                return
+        else:
+            n_ok += 1
+            if not (val is not None and is_true(val)):
+                rep.violated('select_simple verdict', q.node, 'after an accepted write select_simple returns `{}` instead of true: the query stops after the first record'.format(node_text(val, 30) if val is not None else 'nothing'))
+                return
+    if n_ref and n_ok:
+        rep.holds('select_simple verdict', fd, 'returns false exactly when writer.write() refused ({} refusing, {} accepting path(s)); one write per call'.format(n_ref, n_ok))
+    else:
+        rep.undecided('select_simple verdict', fd, 'refusing / accepting paths not both found')
